@@ -4,7 +4,9 @@ use vstd::std_specs::convert::FromSpecImpl;
 use crate::cosmwasm_std::{Addr, Deps, DepsMut, StdError, StdResult, Storage};
 use crate::vspec::StoreView;
 verus! {
+#[derive(Debug)]
 pub enum AdminError { Std(StdError), NotAdmin {} }
+#[derive(Debug)]
 pub struct Admin<'a> { pub ns: &'a str }
 /// `is_admin`: the stored option equals `Some(caller)`
 pub open spec fn is_admin(s: StoreView, a: Addr) -> bool { s.admin == Some(Some(a)) }
